@@ -16,7 +16,38 @@ CHECKS = {
  "C18": ("4 C18", "exact big-integer signed-area conservation, edge provenance (routed edge or straight run) and hole-in-shell test whenever the oracle's routed boundary has multiplicity <= 2",
          "routed boundary computed by the C02 oracle; cases with multiplicity >= 3 are counted but not judged, as the property states",
          "runtime monitor: exact conservation oracle"),
+ "C03": ("4 C03", "200-bit-float oracle: every ordinate returned by SnapPolygon on every accepted built-in set lies within the reported deviation (+1e-8) of an ideal pixel centre of the grid anchored at the extent corner with pixel size root extent / 2^level; pixel size x 16 equals the document's cell size within 1e-6",
+         "ideal pixel size derived from the root matrix by halving; levels > 32 excluded (C06 KF-L33); extent corner from MatrixBoundingBox (C15)",
+         "runtime monitor: high-precision pixel-centre oracle"),
+ "C05": ("4 C05", "ring well-formedness oracle on pixel indices (orientation by exact area, closing duplicate, consecutive and repeated vertices, ring size, empty lists) for valid and invalid inputs, plus the relational keep-off/keep-on prefix check on the same polygon",
+         "zero-area rings with >= 3 vertices are counted, not judged; panics are C06's",
+         "runtime monitor: structural oracle + relational check"),
+ "C06": ("4 C06", "termination-mode observer: every in-extent polygon (hostile junk/motif generators, 1-2 point rings, deep levels, border slivers) must return normally; Go panics are caught with their top texel frame, fatal errors are attributed through the case file written before the call, loops are bounded by logical step budgets of hook H3; two known findings suppressed by signature",
+         "'small polynomial time' restated as step budgets 8N^2/64N^3 on the kmp loops; wall-clock watchdog only yields inconclusive",
+         "runtime monitor: termination observer with loop-step budgets (hook H3)"),
+ "C07": ("4 C07", "metamorphic equality: 4 repetitions in-process, 3 further generations of fresh processes per case (result hashes), reversed id list, every subset of rings reversed, reverse-winding toggled",
+         "'every process' sampled on one machine; ring comparisons up to start-vertex rotation; near-degenerate rings (area within float->int noise) are not counted as valid",
+         "runtime monitor: metamorphic determinism checks across processes"),
+ "C08": ("4 C08", "metamorphic equality of SnapPolygon(p,S)[z] and SnapPolygon(p,{z})[z] for random subsets of round grids, key-set containment",
+         "roundness decided by the oracle on the integer extent",
+         "runtime monitor: alone-vs-together equality"),
+ "C09": ("4 C09", "outside-extent oracle on the tool's integer ordinates: panic value type without the ignore flag, empty result with it, InsertPoint error, for vertices from 1 unit to 10^6 pixels outside each border",
+         "distances below 1e-10 CRS units are not representable in the tool and not generated",
+         "runtime monitor: rejection oracle on panic value / result / error"),
+ "C14": ("4 C14", "independent true-quadtree predicate on JSON documents vs validation verdicts for all built-ins and the complete single-field perturbation set (in-process), pixel size measured through the index, and the real binary's exit mode (error / panic / proceeds) through hook H2",
+         "requested ids always present in the document; cell-size perturbations below 1 % carry no demand",
+         "runtime monitor: validation verdict oracle in-process and at the process boundary"),
+ "C15": ("4 C15", "200-bit-float reference model of tile corners, point-to-tile lookup, outside points and matrix bounding boxes for every matrix of every built-in set in both corner conventions",
+         "tolerance 5e-10 (9-decimal rounding) + 4 ulp of the largest intermediate magnitude; x,y order from orderedAxes",
+         "runtime monitor: reference model of tile addressing"),
+ "C16": ("4 C16", "decode/encode/decode round-trip oracle (deep value equality incl. dynamic CRS type, byte-stable second encoding, semantic equality with the original for unmodified documents) and demanded-reject / no-panic oracle over 1-3 composed structural mutations of 15 documents",
+         "accept/reject demanded only for the classes the statement names; nil and empty lists are equal",
+         "runtime monitor: round-trip and rejection oracle over mutated documents"),
+ "C17": ("4 C17", "bit-by-bit reference interleave vs ToZ/FromZ/MustToZ: equality, round trip, parent key, ok flag; all <=2-bit patterns and all 8-bit pairs at three shifts exhaustively, random pairs otherwise",
+         "2^64 pairs cannot be enumerated",
+         "runtime monitor: reference-model comparison"),
 }
+
 NOT_YET = {}
 
 def main():
